@@ -21,7 +21,9 @@ Schema ==
                              DSec("n", {"MULTI"}, << DInt("y", "1"), DStr("ns", "deep") >>),
                              DStr("ms", "dflt"), DFloat("mf", "2.25"), DBool("mb", "true") >>),
      DSec("t", {"MULTI","TITLE"}, << DInt("x", "5"), DStr("ts", "tdef") >>),
-     DSec("kv", {"KEYSTRVAL"}, <<>>) >>
+     DSec("kv", {"KEYSTRVAL"}, <<>>),
+     (* a single section: removed through the API and opened again by a later parse *)
+     DSec("s1", {}, << DInt("q", "4"), DStr("qs", "sdef") >>) >>
 
 Fresh == MkSec(Null, InitOpts(Schema))
 
@@ -31,8 +33,9 @@ Texts ==
    key   |-> <<T("kv"), TkP("{"), T("k"), TkP("="), T("v"), TkP("}")>>,
    seti  |-> <<T("i"), TkP("="), T("3"), T("l"), TkP("+="), T("b")>>,
    (* an undeclared key outside the free-form section: must stay an error whatever happened before *)
-   stray |-> <<T("m"), TkP("{"), T("zz"), TkP("="), T("1"), TkP("}")>>]
-TextNames == {"newm", "key", "seti", "stray"}
+   stray |-> <<T("m"), TkP("{"), T("zz"), TkP("="), T("1"), TkP("}")>>,
+   opens1 |-> <<T("s1"), TkP("{"), TkP("}")>>]
+TextNames == {"newm", "key", "seti", "stray", "opens1"}
 
 M1 == <<[oi |-> 3, ii |-> 1]>>
 M2 == <<[oi |-> 3, ii |-> 2]>>
@@ -42,8 +45,9 @@ Calls ==
    addt    |-> Call("addtsec", <<>>, "t", 0, "a", <<>>),
    rmt     |-> Call("rmtsec", <<>>, "t", 0, "a", <<>>),
    sib1    |-> Call("setint", M1, "x", 0, "8", <<>>),
-   sib2    |-> Call("addlist", M2, "ml", 0, "", <<"e">>)]
-CallNames == {"setint", "note", "addt", "rmt", "sib1", "sib2"}
+   sib2    |-> Call("addlist", M2, "ml", 0, "", <<"e">>),
+   rms1    |-> Call("rmnsec", <<>>, "s1", 0, "", <<>>)]
+CallNames == {"setint", "note", "addt", "rmt", "sib1", "sib2", "rms1"}
 
 (* cfg_set_validate_func(cfg, path, cb): on "i" the context's own option; on "m|x" the
    context's own template for future instances of m *)
